@@ -26,6 +26,7 @@ type VRec struct {
 
 type workerDone struct {
 	Evaluated int            `json:"evaluated"`
+	Sub       int            `json:"sub"`
 	States    []uint64       `json:"states"`
 	Trans     []uint64       `json:"trans"`
 	Keys      []uint64       `json:"keys"`
@@ -80,6 +81,7 @@ func RunWorker(id, tier string, shard, nshards, from int, deadline time.Time, on
 		os.Stdout.Write(bline)
 		res := cs.Run()
 		done.Evaluated++
+		done.Sub += res.Sub
 		done.Last = idx
 		done.Families[cs.Family]++
 		if res.Engine != "" {
